@@ -55,6 +55,32 @@ def handleObserved (c : Json) : JE Json := do
     ("textPath", J.mkStrs (textPath st)),
     ("interrupt", Json.bool (isInterrupt hu st.err))]
 
+/-- family drainfail: {"kind":"drainfail","levels":[enclosing graphs],"drain":[{"k":key,"o":"ok"|"fail"|"interrupt","point":bool}…],
+    "err":…,"target":n}: the tasks of an eager run in completion order ("fail" = the case's `err`,
+    a panic included) → what the run returns -/
+def handleDrain (c : Json) : JE Json := do
+  let levels ← (← J.arr c "levels").mapM parseLevel
+  let e ← parseErr (← J.field c "err")
+  let t ← J.nat c "target"
+  let hu := Expected.C13.internalErrorHasUnwrap
+  let ord ← (← J.arr c "drain").mapM fun j => do
+    let k ← J.str j "k"
+    let o ← J.str j "o"
+    let r : Option GoErr := if o == "fail" then some e else if o == "interrupt" then some .interrupt else none
+    pure ((k, r), J.boolD j "point" false)
+  let points := (ord.filter (·.2)).map (·.1.1)
+  let res := eagerRun hu Expected.C13.drainedTaskErrorChecked (fun k => points.contains k) (ord.map (·.1))
+  let mk (round : String) (out : GoErr) : Json := Json.mkObj [
+      ("round", round),
+      ("is", Json.bool (errorsIs hu out t)),
+      ("path", J.mkStrs (nodePath out)),
+      ("textPath", J.mkStrs (textPath { err := out, cache := none })),
+      ("interrupt", Json.bool (isInterrupt hu out))]
+  match res with
+  | .failed se => pure (mk "failed" (failThrough hu levels se))
+  | .interrupted => pure (mk "interrupted" (failThrough hu levels .interrupt))
+  | .goesOn => pure (mk "goesOn" (.leaf 0))
+
 /-- {"k":"canceled"} | {"k":"deadline"} | {"k":"custom","id":n} -/
 def parseCtxEnd (j : Json) : JE CtxEnd := do
   match (← J.str j "k") with
@@ -129,6 +155,7 @@ def handle (c : Json) : JE Json := do
   | "ctxend" => handleCtxEnd c
   | "fwdtree" => handleFwdTree c
   | "obsnode" => handleObserved c
+  | "drainfail" => handleDrain c
   | _ =>
   let levels ← (← J.arr c "levels").mapM parseLevel
   let e ← parseErr (← J.field c "err")
